@@ -414,6 +414,10 @@ JsonStrVariants(cls) ==
   CASE cls \in {"secphex", "sighex", "commithex", "proofhex", "edpkhex", "edsighex", "edsighexreq", "blindhex", "identhex",
                 "tokenhex", "noncehex"} ->
          {"empty", "short", "long", "odd", "nonhex", "nonascii"} \cup (IF cls \in {"secphex", "edpkhex", "edsighex", "edsighexreq"} THEN {"badpoint"} ELSE {})
+         \* the hex decoder underneath (grin_util::from_hex) is lenient: it trims blanks and strips any number of leading "0x".
+         \* Texts of the RIGHT LENGTH that decode to FEWER bytes (a byte replaced by "0x", by "0x0x", by trailing blanks; nothing but
+         \* blanks), and the right bytes behind a prefix:
+         \cup {"lenient_0x", "lenient_0x0x", "lenient_tail", "lenient_blank", "lenient_prefixed"}
     [] cls \in {"uuid", "optuuid"} -> {"empty", "short", "nonhex", "nonascii"}
     [] cls = "verstr"  -> {"empty", "nosep", "twosep", "alpha", "big"}
     [] cls = "packver" -> {"empty", "nosep", "twosep", "alpha", "big"}
@@ -624,8 +628,12 @@ AgeEff(mu) ==
 \* carrier = "value" when the document went through serde_json::Value first (JSON-RPC params),
 \* "text" when it is deserialised from text
 FromHexPanic == PanicAt("grin_util::from_hex#char-boundary")
+LenientVariants == {"lenient_0x", "lenient_0x0x", "lenient_tail", "lenient_blank", "lenient_prefixed"}
 JsonStrEff(cls, v) ==
-  CASE cls = "secphex"  -> IF v = "nonascii" THEN FromHexPanic ELSE E("err")                    \* secp_ser::pubkey_serde
+  \* named havoc: which helpers go through the lenient decoder, and what each makes of fewer bytes, is not transcribed -
+  \* any outcome but a panic (the property monitors still judge the observed run)
+  CASE v \in LenientVariants -> Havoc_Semantics
+    [] cls = "secphex"  -> IF v = "nonascii" THEN FromHexPanic ELSE E("err")                    \* secp_ser::pubkey_serde
     [] cls = "sighex"   -> (CASE v = "long" -> E("cont") [] v = "nonascii" -> FromHexPanic [] OTHER -> E("err"))   \* secp_ser::option_sig_serde
     [] cls = "commithex" -> (CASE v \in {"empty", "short", "long"} -> E("cont")      \* Commitment::from_vec pads / truncates
                                [] v = "nonascii" -> FromHexPanic [] OTHER -> E("err"))
